@@ -39,10 +39,17 @@ def run(ck, ctx):
                       "manifest - flush included - reloads it first and gives up when the reload fails (a cached copy is stale after a "
                       "compaction: saving it resurrects deleted inputs and overwrites the compacted object)")
     ck.nd("state equality for all layouts and interleavings")
+    ck.rule("R13.12", "the stamp compaction orders by is advanced by every mutation: compaction keeps one delta per key by the value's outer "
+                      "stamp (the open R13.1 finding: it does not merge), so a mutator of ReplicatedValue that changes the payload (e.g. DEL of "
+                      "a hash tombstoning its fields) without copying the ticked clock into the outer stamp produces a delta that ties with "
+                      "its predecessor and is dropped by compaction while recovery without compaction merges it in (shared with C08 R08.2)")
     for cfg in ctx.configs:
         prog = ctx.prog(cfg)
         ck.configs.append(cfg)
         ck.fn_count += len(prog.fns)
+        from . import c08
+        from .core import Alias
+        c08._r082(Alias(ck, "R08.2", "R13.12"), prog, cfg)
         _rules(ck, prog, cfg)
         _r139(ck, prog, cfg)
         _r1310(ck, prog, cfg)
